@@ -639,6 +639,16 @@ func prepareBatchItem(bc *BatchCheck, fc *ProgCheck, it *batchItem, tmp string, 
 	var randFuncs map[string]bool
 	for _, t := range bc.Targets {
 		out, pi := l.RunTarget(t, ans[:1])
+		if pi == nil {
+			// what is checked is the output of a second generation in the same process, from a fresh
+			// analysis of the same loaded packages: state kept between calls shows there
+			if an2, pi2 := l.Analyse(0); pi2 == nil {
+				out, pi = l.RunTarget(t, []*analysis.Analysis{an2})
+				if pi != nil {
+					counts["second-generation-refused:"+t]++
+				}
+			}
+		}
 		if pi != nil {
 			counts["refused:"+t]++
 			if t == prog.TGounions || t == bc.Targets[len(bc.Targets)-1] {
